@@ -27,8 +27,8 @@ def quit_schedule(units, ui, j, later=0):
         if k == ui:
             steps += j + 1
             break
-        steps += len(u[2])
-    return 'm' * (steps - 1) + 'kk' + 'm' * (sum(len(u[2]) + 1 for u in units) + 5)
+        steps += len(u[2]) + (1 if u[0] == 'm' else 0)      # a Markov level ends with one more call of the generator
+    return 'm' * (steps - 1) + 'kk' + 'm' * (sum(len(u[2]) + 2 for u in units) + 5)
 
 
 def run(ctx):
@@ -97,10 +97,10 @@ def run(ctx):
                     lastc = c == cycles
                     remaining_total = len(full) - sum(len(o) for o in outs)
                     if lastc:
-                        sched, events = 'm' * (len(full) + len(units) + 5), []
+                        sched, events = 'm' * (len(full) + 2 * len(units) + 5), []
                     else:
                         cut = rng.randint(1, max(1, remaining_total))
-                        sched, events = 'm' * cut + 'kk' + 'm' * (len(full) + len(units) + 5), [('line', 'q', False)]
+                        sched, events = 'm' * cut + 'kk' + 'm' * (len(full) + 2 * len(units) + 5), [('line', 'q', False)]
                     pos0, opt0, omn0, _ = ss.read_files(sf, units, pcfg)
                     try:
                         rc = ss.run_session(pcfg, sf, load_cfg(sf), True, sched, events)
@@ -148,11 +148,15 @@ def run(ctx):
                     try:
                         h1 = ss.run_session(pcfg, sf, C12.new_cfg(), False, sched1, [('line', 'q', False)])
                         r_left = n - 1 - j
-                        h2 = ss.run_session(pcfg, sf, load_cfg(sf), True, 'm' * (2 * r_left) + 'kk' + 'm' * (2 * len(full) + len(units) + 5),
-                                            [('line', 'q', False)], omen_yield=True)
+                        sched2 = 'm' * r_left + 'kk' + 'm' * (len(full) + 2 * len(units) + 5)
+                        pos0, opt0, omn0, _ = ss.read_files(sf, units, pcfg)
+                        h2 = ss.run_session(pcfg, sf, load_cfg(sf), True, sched2, [('line', 'q', False)])
                         hs = [h1['out'], h2['out']]
                         if h2['state'] == 'exited':
-                            h3 = ss.run_session(pcfg, sf, load_cfg(sf), True, 'm' * (2 * len(full) + len(units) + 5), [], omen_yield=True)
+                            p2, o2, m2, _ = ss.read_files(sf, units, pcfg)
+                            ops.append(f"ss.run1 {pos0} {1 if opt0 else 0} {C12.omn_token(omn0)} {C12.ev_tokens([('line', 'q', False)])} {sched2}")
+                            exp.append(('exited', h2['out'], p2, o2))
+                            h3 = ss.run_session(pcfg, sf, load_cfg(sf), True, 'm' * (len(full) + 2 * len(units) + 5), [])
                             hs.append(h3['out'])
                     except Exception as e:
                         viol.append({'property': 'C15', 'kind': 'session-raised', 'error': repr(e)[:200], 'witness': dict(wit, history='end-of-level-search')})
@@ -221,10 +225,10 @@ def replay(ctx, payload):
     outs = [r1['out']]
     if w.get('history') == 'end-of-level-search':
         r_left = len(units[w['unit']][2]) - 1 - w['guess']
-        h2 = ss.run_session(pcfg, sf, load_cfg(sf), True, 'm' * (2 * r_left) + 'kk' + 'm' * (2 * len(full) + len(units) + 5), [('line', 'q', False)], omen_yield=True)
+        h2 = ss.run_session(pcfg, sf, load_cfg(sf), True, 'm' * r_left + 'kk' + 'm' * (len(full) + 2 * len(units) + 5), [('line', 'q', False)])
         outs.append(h2['out'])
         if h2['state'] == 'exited':
-            outs.append(ss.run_session(pcfg, sf, load_cfg(sf), True, 'm' * (2 * len(full) + len(units) + 5), [], omen_yield=True)['out'])
+            outs.append(ss.run_session(pcfg, sf, load_cfg(sf), True, 'm' * (len(full) + 2 * len(units) + 5), [])['out'])
         total = [l for o in outs for l in o]
         return [] if total == full else [{'kind': 'history-differs', 'emitted': len(total), 'full': len(full)}]
     cut = 3
